@@ -830,7 +830,7 @@ def c17(tier):
     rep.extra["option_records_enumerated"] = len(behs)
     rep.extra["exhaustive_roundtrip"] = True
     generic_replay(rep, "admin-replay", behs, {}, "c17rt", "admin-replay")
-    gbehs, gen, _ = vcore.tlc_simulate("Admin.tla", os.path.join(vcore.SPEC, "GEN_Admin.cfg"), 600 if thorough else 80, 16, SEED)
+    gbehs, gen, _ = vcore.tlc_simulate("Admin.tla", os.path.join(vcore.SPEC, "GEN_Admin.cfg"), 400 if thorough else 25, 16, SEED)
     rep.transitions += gen
     generic_replay(rep, "admin-replay", gbehs, {}, "c17", "admin-replay")
     return rep.finish()
@@ -859,4 +859,98 @@ def c20(tier):
     behs, gen, _ = vcore.tlc_simulate("Migrate.tla", os.path.join(vcore.SPEC, "GEN_Migrate.cfg"), 500 if thorough else 70, 12, SEED)
     rep.transitions += gen
     generic_replay(rep, "migrate-replay", behs, {"seed": SEED}, "c20", "migrate-replay")
+    return rep.finish()
+
+
+# ---------------------------------------------------------------------------
+# C15: the pipeline always drains
+
+def workers_cfg(nclients, ncommits, maxq, maxl, maxlogs, minlog, faults, fix, live=False):
+    def sset(xs):
+        return "{" + ", ".join('"%s"' % x for x in xs) + "}"
+    lines = ["CONSTANTS", "  NClients = %d" % nclients, "  NCommits = %d" % ncommits, "  MaxQ = %d" % maxq,
+             "  MaxL = %d" % maxl, "  MaxLogs = %d" % maxlogs, "  MinLog = %d" % minlog,
+             "  Faults = %s" % ("TRUE" if faults else "FALSE"), "  Fix = %s" % sset(fix),
+             "SPECIFICATION %s" % ("FairSpec" if live else "Spec"), "INVARIANTS TypeOK AllPersisted"]
+    if live:
+        lines.append("PROPERTIES CommitReturns ShutdownTerminates AllLogged")
+    return "\n".join(lines) + "\n"
+
+
+@check("C15")
+def c15(tier):
+    rep = Report("C15", tier)
+    rep.rule = ("TLC: clients, the four workers and the dropping thread with every mutex and condition variable explicit "
+                "(bare condvars lose a notify sent without the waiter's mutex), thresholds 1, I/O fault in the log worker: "
+                "deadlock freedom for 2 clients x 2 commits, liveness (every commit call returns, everything accepted is "
+                "logged, drop terminates) under weak fairness on a smaller instance; necessity configs remove each of the "
+                "three repairs and must deadlock. Implementation: the three counterexample schedules are forced on the real "
+                "threads through the hook sink (a thread is held between its check and its park) and must not hang; commit "
+                "storms, 5 MiB transactions and immediate drops run under a 60 s watchdog. Non-trivial = forced schedule "
+                "that reached its window, or a storm round")
+    rep.assumptions = ["byte counters abstracted to unit-size commits with thresholds 0..1",
+                       "no spurious wake-ups", "the model's fairness = every thread that can run eventually runs"]
+    vcore.build_harness()
+    thorough = tier == "thorough"
+    allfix = ("S1", "S2", "S7")
+    # the protocol as implemented
+    res = vcore.tlc_check("Workers.tla", write_cfg(workers_cfg(2, 2 if thorough else 1, 1, 1, 1, 0, True, allfix)), timeout=3000)
+    rep.add_model(res, "MC_Workers(2 clients,faults)")
+    if not res["ok"]:
+        rep.violation("TLC: %s in Workers.tla (protocol as implemented)" % res["violated"],
+                      {"kind": "model", "cfg": "MC_Workers", "tlc_tail": res["out"][-6000:]})
+    else:
+        log("[tlc] MC_Workers: %d distinct states, deadlock-free" % res["distinct"])
+    res = vcore.tlc_check("Workers.tla", write_cfg(workers_cfg(1, 3, 1, 1, 1, 0, False, allfix)), timeout=3000)
+    rep.add_model(res, "MC_Workers(1 client x 3)")
+    if not res["ok"]:
+        rep.violation("TLC: %s in Workers.tla (1 client x 3 commits)" % res["violated"],
+                      {"kind": "model", "cfg": "MC_Workers_1x3", "tlc_tail": res["out"][-6000:]})
+    if thorough:
+        res = vcore.tlc_check("Workers.tla", write_cfg(workers_cfg(2, 2, 1, 1, 1, 1, False, allfix)), timeout=3000)
+        rep.add_model(res, "MC_Workers(MinLog=1)")
+        if not res["ok"]:
+            rep.violation("TLC: %s in Workers.tla (MinLog=1)" % res["violated"],
+                          {"kind": "model", "cfg": "MC_Workers_minlog", "tlc_tail": res["out"][-6000:]})
+    res = vcore.tlc_check("Workers.tla", write_cfg(workers_cfg(1, 2, 0, 0, 0, 0, False, allfix, live=True)), workers=8, timeout=3000)
+    rep.add_model(res, "MC_Workers_liveness")
+    if not res["ok"]:
+        rep.violation("TLC: liveness %s violated in Workers.tla" % res["violated"],
+                      {"kind": "model", "cfg": "MC_Workers_live", "tlc_tail": res["out"][-6000:]})
+    else:
+        log("[tlc] MC_Workers liveness (CommitReturns, ShutdownTerminates, AllLogged): ok, %d states" % res["distinct"])
+    # each repair is necessary: without it the model deadlocks
+    for missing, faults in (("S1", True), ("S2", False), ("S7", False)):
+        fix = tuple(x for x in allfix if x != missing)
+        r = vcore.tlc_check("Workers.tla", write_cfg(workers_cfg(2, 2, 1, 1, 1, 0, faults, fix)), timeout=3000)
+        rep.add_model(r, "MC_Workers_without_" + missing)
+        if r["ok"]:
+            raise ToolError("Workers.tla without repair %s is deadlock-free: the model does not justify the scenario" % missing)
+        log("[tlc] necessity: without %s -> %s after %d states" % (missing, r["violated"], r["distinct"]))
+    # forced schedules on the real threads
+    for which in ("S1", "S2", "S7"):
+        outcome = None
+        for attempt in range(3):
+            p = vcore.pdbh("workers-scenario", {"which": which, "watchdog": 15}, timeout=400)
+            outcome = json.loads(p.stdout.strip().splitlines()[-1])
+            if outcome.get("reached"):
+                break
+        rep.evaluations += 1
+        if outcome.get("reached"):
+            rep.nontrivial.add("forced:" + which)
+        rep.extra.setdefault("forced_schedules", []).append(outcome)
+        if outcome.get("hung"):
+            rep.violation("forced schedule %s: %s" % (which, outcome.get("what")),
+                          {"kind": "workers-scenario", "which": which})
+        log("[forced] %s reached=%s hung=%s" % (which, outcome.get("reached"), outcome.get("hung")))
+    # storms under a watchdog
+    p = vcore.pdbh("workers-live", {"seed": SEED, "rounds": 10 if thorough else 3, "watchdog": 60}, timeout=1500)
+    summary = json.loads(p.stdout.strip().splitlines()[-1])
+    rep.evaluations += summary["rounds"]
+    for r in range(summary["rounds"]):
+        rep.nontrivial.add("storm:%d" % r)
+    rep.extra["storm_commits"] = summary["commits"]
+    for pr in summary["problems"]:
+        rep.violation("storm: " + pr, {"kind": "workers-live", "seed": SEED})
+    rep.sample({"forced_schedules": rep.extra.get("forced_schedules"), "storm": summary})
     return rep.finish()
